@@ -1,6 +1,6 @@
 import PcfgVerif.Model.EditRules
 import PcfgVerif.Lemmas.EditLemmas
-/-! Statements to be proved (work file for edit_rules, C20). -/
+/-! edit_rules (C20): statements and proofs. -/
 namespace Pcfg
 
 /-- a length label as the trainer writes it: one upper-case letter followed by decimal digits -/
@@ -38,14 +38,15 @@ theorem textLines_gText (rows : List (List CPs × CPs))
   textLines_textRaw rows h
 
 /-- C20 (length filter): on a well-formed file whose labels all carry a number where one is read,
-`edit_length` keeps exactly the rows whose total label length passes `keepLen`, in order, each line
-byte-identical (structure and probability text unchanged) -/
-theorem editLength_filter (mn mx : Nat) (rows : List (List CPs × CPs))
-    (h : ∀ r ∈ rows, r.1 ≠ [] ∧ (∀ t ∈ r.1, IsLabel t) ∧ IsProbText r.2 ∧ (totalLen r.1).isSome) :
-    (editLengthLines mn mx (textLines (gText rows))).map List.flatten =
-      some (gText (rows.filter fun r => Generated.EditRules.keepLen ((totalLen r.1).getD 0) mn mx)) := by
+`edit_length` keeps exactly the rows whose (shortest, longest) guess length passes `keepLen`, in order,
+each line byte-identical (structure and probability text unchanged) -/
+theorem editLength_filter (ctx : Nat × Nat) (mn mx : Nat) (rows : List (List CPs × CPs))
+    (h : ∀ r ∈ rows, r.1 ≠ [] ∧ (∀ t ∈ r.1, IsLabel t) ∧ IsProbText r.2 ∧ (totalLen ctx r.1).isSome) :
+    (editLengthLines ctx mn mx (textLines (gText rows))).map List.flatten =
+      some (gText (rows.filter fun r =>
+        Generated.EditRules.keepLen ((totalLen ctx r.1).getD (0, 0)).1 ((totalLen ctx r.1).getD (0, 0)).2 mn mx)) := by
   rw [textLines_gText rows (fun r hr => ⟨(h r hr).2.1, (h r hr).2.2.1⟩)]
-  exact editLength_filter_raw mn mx rows h
+  exact editLength_filter_raw ctx mn mx rows h
 
 /-- C20 (terminal-set filter) -/
 theorem editTerminal_filter (allowed : List Nat) (rows : List (List CPs × CPs))
@@ -63,26 +64,81 @@ theorem checkRegex_filter (ok : CPs → Bool) (rows : List (List CPs × CPs))
   rw [textLines_gText rows (fun r hr => ⟨(h r hr).2.1, (h r hr).2.2⟩)]
   exact checkRegex_filter_raw ok rows h
 
-/-- what passing the length test means: the Markov structure (total 0) is always kept; otherwise
-the total is at least the minimum and, when a maximum was given, at most the maximum -/
-theorem keepLen_spec (total mn mx : Nat) :
-    Generated.EditRules.keepLen total mn mx = true ↔
-      (total = 0 ∨ (mn ≤ total ∧ (mx = 0 ∨ total ≤ mx))) :=
-  gen_keepLen_iff total mn mx
+/-- what passing the length test means: the Markov structure (longest 0) is always kept; otherwise
+the shortest guess is at least the minimum and, when a maximum was given, the longest at most the maximum -/
+theorem keepLen_spec (lo hi mn mx : Nat) :
+    Generated.EditRules.keepLen lo hi mn mx = true ↔
+      (hi = 0 ∨ (mn ≤ lo ∧ (mx = 0 ∨ hi ≤ mx))) := by
+  exact gen_keepLen_iff lo hi mn mx
 
 set_option linter.unusedVariables false in
-/-- the length `edit_length` attributes to a label: its number for A, D, O, K (and X), 4 for Y,
-0 for anything else (M) -/
-theorem tokenLen_spec (c : Nat) (ds : CPs) (hc : isUpperAZ c = true) (hds : ds ≠ []) :
-    tokenLen (c :: ds) =
-      if c = 0x59 then some 4
-      else if c = 0x41 ∨ c = 0x44 ∨ c = 0x4f ∨ c = 0x4b ∨ c = 0x58 then digitsVal ds
-      else some 0 :=
-  tokenLen_cons c ds (upper_lt hc)
+/-- the lengths `edit_length` attributes to a label: its number for A, D, O, K; 4 for Y; for X the number
+times the shortest / longest context-sensitive value of the ruleset; 0 for anything else (M) -/
+theorem tokenLen_spec (ctx : Nat × Nat) (c : Nat) (ds : CPs) (hc : isUpperAZ c = true) (hds : ds ≠ []) :
+    tokenLen ctx (c :: ds) =
+      if c = 0x59 then some (4, 4)
+      else if c = 0x41 ∨ c = 0x44 ∨ c = 0x4f ∨ c = 0x4b then (digitsVal ds).map fun n => (n, n)
+      else if c = 0x58 then (digitsVal ds).map fun n => (n * ctx.1, n * ctx.2)
+      else some (0, 0) := by
+  exact tokenLen_cons ctx c ds (upper_lt hc)
+
+/-- `l` is a length a value behind the label `tok` can have, according to what the ruleset holds: the
+label's number for A, D, O, K, 4 for Y, between the shortest and the longest context value for X -/
+def LabelLenOK (ctx : Nat × Nat) (tok : CPs) (l : Nat) : Prop :=
+  ∃ a b, tokenLen ctx tok = some (a, b) ∧ a ≤ l ∧ l ≤ b
+
+/-- a guess of a structure is one value per label: its length lies between the two totals -/
+theorem totalLen_bounds (ctx : Nat × Nat) (toks : List CPs) (ls : List Nat) (hlen : ls.length = toks.length)
+    (h : ∀ i (hi : i < toks.length), LabelLenOK ctx toks[i] (ls[i]'(by omega))) :
+    ∃ lo hi, totalLen ctx toks = some (lo, hi) ∧ lo ≤ ls.sum ∧ ls.sum ≤ hi := by
+  induction toks generalizing ls with
+  | nil =>
+    cases ls with
+    | nil => exact ⟨0, 0, rfl, by simp, by simp⟩
+    | cons l ls => simp at hlen
+  | cons t ts ih =>
+    cases ls with
+    | nil => simp at hlen
+    | cons l ls =>
+      have hlen' : ls.length = ts.length := by simpa using hlen
+      obtain ⟨a, b, hab, hal, hlb⟩ := h 0 (by simp)
+      simp only [List.getElem_cons_zero] at hab hal hlb
+      obtain ⟨lo, hi, hts, hlo, hhi⟩ := ih ls hlen' (fun i hi => by
+        have := h (i + 1) (by simp; omega)
+        simpa using this)
+      refine ⟨a + lo, b + hi, totalLen_cons_some ctx t ts (a, b) (lo, hi) hab hts, ?_, ?_⟩
+      · simp only [List.sum_cons]; omega
+      · simp only [List.sum_cons]; omega
+
+/-- **the length promise**: every guess of a kept non-Markov structure is within the requested bounds -/
+theorem kept_guess_in_bounds (ctx : Nat × Nat) (toks : List CPs) (ls : List Nat) (mn mx lo hi : Nat)
+    (hlen : ls.length = toks.length)
+    (h : ∀ i (hi : i < toks.length), LabelLenOK ctx toks[i] (ls[i]'(by omega)))
+    (ht : totalLen ctx toks = some (lo, hi)) (hnm : hi ≠ 0)
+    (hk : Generated.EditRules.keepLen lo hi mn mx = true) :
+    mn ≤ ls.sum ∧ (mx = 0 ∨ ls.sum ≤ mx) := by
+  obtain ⟨lo', hi', ht', hlo, hhi⟩ := totalLen_bounds ctx toks ls hlen h
+  rw [ht] at ht'
+  simp only [Option.some.injEq, Prod.mk.injEq] at ht'
+  obtain ⟨rfl, rfl⟩ := ht'
+  rcases (keepLen_spec lo hi mn mx).mp hk with h0 | ⟨h1, h2⟩
+  · exact absurd h0 hnm
+  · exact ⟨by omega, by omega⟩
+
+/-- and only failing structures are removed: a removed structure has a guess (all context values
+shortest, or all longest) outside the bounds -/
+theorem removed_has_failing_guess (lo hi mn mx : Nat) (hk : Generated.EditRules.keepLen lo hi mn mx = false) :
+    hi ≠ 0 ∧ (lo < mn ∨ (mx ≠ 0 ∧ mx < hi)) := by
+  have hn : ¬ (hi = 0 ∨ (mn ≤ lo ∧ (mx = 0 ∨ hi ≤ mx))) := by
+    intro hc
+    rw [(keepLen_spec lo hi mn mx).mpr hc] at hk
+    exact Bool.noConfusion hk
+  omega
 
 /-! ## Non-vacuity: a concrete four-line grammar file
 
-`A3D1\t0.5`, `M\t0.25`, `A1000D2\t0.125`, `Y1X1\t0.0625` (totals 4, 0, 1002, 5). -/
+`A3D1\t0.5`, `M\t0.25`, `A1000D2\t0.125`, `Y1X1\t0.0625`; context values of 2 to 5 characters
+(totals (4,4), (0,0), (1002,1002), (6,9)). -/
 
 /-- Boolean form of `IsLabel`, to discharge the hypotheses by evaluation -/
 def isLabelB : CPs → Bool
@@ -113,37 +169,37 @@ example : gText exRows =
 
 /-- the hypotheses of the three filter theorems hold for the example -/
 theorem exRows_ok : ∀ r ∈ exRows,
-    r.1 ≠ [] ∧ (∀ t ∈ r.1, IsLabel t) ∧ IsProbText r.2 ∧ (totalLen r.1).isSome := by
+    r.1 ≠ [] ∧ (∀ t ∈ r.1, IsLabel t) ∧ IsProbText r.2 ∧ (totalLen (2, 5) r.1).isSome := by
   have hb : ∀ r ∈ exRows, r.1 ≠ [] ∧ (∀ t ∈ r.1, isLabelB t = true) ∧
       ((∀ c ∈ r.2, isUpperAZ c = false ∧ c ≠ 0x09 ∧ c ≠ 0x0a) ∧ lstripWs (rstripWs r.2) = r.2) ∧
-      (totalLen r.1).isSome = true := by decide
+      (totalLen (2, 5) r.1).isSome = true := by decide
   intro r hr
   obtain ⟨h1, h2, h3, h4⟩ := hb r hr
   exact ⟨h1, fun t ht => isLabel_of_isLabelB t (h2 t ht), h3, h4⟩
 
-example : exRows.map (fun r => totalLen r.1) = [some 4, some 0, some 1002, some 5] := by decide
+example : exRows.map (fun r => totalLen (2, 5) r.1) = [some (4, 4), some (0, 0), some (1002, 1002), some (6, 9)] := by decide
 
 /-- min 4, max 4: `A3D1` (4) and the Markov line `M` (0) stay -/
-example : (editLengthLines 4 4 (textLines (gText exRows))).map List.flatten =
+example : (editLengthLines (2, 5) 4 4 (textLines (gText exRows))).map List.flatten =
     some (gText [exA3D1, exM]) := by decide
 
-/-- min 5, no max: `A3D1` goes; `A1000D2` is written back with all its digits -/
-example : (editLengthLines 5 0 (textLines (gText exRows))).map List.flatten =
+/-- min 5, no max: `A3D1` goes; `A1000D2` is written back with all its digits; `Y1X1` (6..9) stays -/
+example : (editLengthLines (2, 5) 5 0 (textLines (gText exRows))).map List.flatten =
     some (gText [exM, exA1000D2, exY1X1]) := by decide
 
 /-- min 1000, no max: only `M` and `A1000D2` stay, byte for byte -/
-example : (editLengthLines 1000 0 (textLines (gText exRows))).map List.flatten =
+example : (editLengthLines (2, 5) 1000 0 (textLines (gText exRows))).map List.flatten =
     some [0x4d, 0x09, 0x30, 0x2e, 0x32, 0x35, 0x0a,
       0x41, 0x31, 0x30, 0x30, 0x30, 0x44, 0x32, 0x09, 0x30, 0x2e, 0x31, 0x32, 0x35, 0x0a] := by
   decide
 
 /-- the same through the theorem -/
-example : (editLengthLines 1000 0 (textLines (gText exRows))).map List.flatten =
+example : (editLengthLines (2, 5) 1000 0 (textLines (gText exRows))).map List.flatten =
     some (gText (exRows.filter fun r =>
-      Generated.EditRules.keepLen ((totalLen r.1).getD 0) 1000 0)) :=
-  editLength_filter 1000 0 exRows exRows_ok
+      Generated.EditRules.keepLen ((totalLen (2, 5) r.1).getD (0, 0)).1 ((totalLen (2, 5) r.1).getD (0, 0)).2 1000 0)) :=
+  editLength_filter (2, 5) 1000 0 exRows exRows_ok
 
-example : (exRows.filter fun r => Generated.EditRules.keepLen ((totalLen r.1).getD 0) 1000 0) =
+example : (exRows.filter fun r => Generated.EditRules.keepLen ((totalLen (2, 5) r.1).getD (0, 0)).1 ((totalLen (2, 5) r.1).getD (0, 0)).2 1000 0) =
     [exM, exA1000D2] := by decide
 
 /-- the tokenizer does not truncate the four-digit label -/
@@ -157,10 +213,14 @@ example : (checkRegexLines (fun s => s.headD 0 == 0x41) (textLines (gText exRows
     List.flatten = some (gText [exA3D1, exA1000D2]) := by decide
 
 /-- a line without TAB makes `edit_length` raise (the hypothesis `IsProbText`/TAB is needed) -/
-example : editLengthLines 0 3 [[0x41, 0x33]] = none := by decide
+example : editLengthLines (1, 1) 0 3 [[0x41, 0x33]] = none := by decide
 
 /-- a letter without digits where `int()` is applied raises (hypothesis `(totalLen _).isSome`) -/
-example : editLengthLines 0 3 [[0x41, 0x09, 0x31]] = none := by decide
+example : editLengthLines (1, 1) 0 3 [[0x41, 0x09, 0x31]] = none := by decide
+
+/-- max 8: `Y1X1` goes because its longest guess has 9 characters although its shortest has 6 -/
+example : (editLengthLines (2, 5) 0 8 (textLines (gText exRows))).map List.flatten =
+    some (gText [exA3D1, exM]) := by decide
 
 end Pcfg
 
